@@ -629,6 +629,11 @@ def _extremum_op(name, sign):
     @op(name, profs=ORDERED, dict_mode="exact")
     def _ext(c):
         yield "%s(%s)" % (name, c.S), (lambda: _extreme(c, sign, ncmp)), ""
+        if c.kind != "dict":
+            # one-line definition: max(xs) is xs folded with the two-argument max -- the same element, in the same
+            # representation, whatever the interpreter's rule for ties is (both sides are computed by the interpreter)
+            yield ("(\\a, b -> if (repr(a) == repr(b)) a else [\"DIFF\", a, b])(%s(%s), fold(%s, %s))" % (name, c.S, c.S, name),
+                   (lambda: _extreme(c, sign, ncmp)), "fold-consistent")
         for fs, f in fam(CMPF, c.prof if c.prof != "txt" else "chr"):
             yield c.call(name, c.S, fs), (lambda f=f: _extreme(c, sign, f)), "cmp"
         if c.n >= 2 and c.kind == "list" and c.prof in ("int", "num", "numf", "numq", "str"):
@@ -1078,6 +1083,11 @@ def grid_cases():
                     idx += 1
 
 
+LONG_OK = {"sort", "sort_on", "unique", "max", "min", "reverse", "group", "group'", "group_all", "frequencies", "count",
+           "filter", "reject", "partition", "map", "sum", "fold", "scan", "enumerate", "find", "locate", "any", "all",
+           "pairwise", "++", "join"}
+
+
 def random_case(r):
     o = r.choice(OPS)
     combos = COMBOS[o["name"]]
@@ -1087,12 +1097,23 @@ def random_case(r):
     cap = min(8, o["maxlen"])
     n = r.choice([0, 1, 2, 2, 3, 3, 4, 4, 5, 5, 6, 7, 8])
     n = min(n, cap)
+    long_ties = None
+    if o["name"] in LONG_OK and kind != "dict" and r.random() < (0.3 if o["name"] in ("sort", "sort_on", "max", "min") else 0.07):
+        # beyond the small-input thresholds of library algorithms (insertion-sort cut-offs, chunked loops):
+        # 21..48 elements drawn from 2-4 values, so ties between distinguishable equal elements are everywhere
+        n = r.choice([21, 22, 24, 32, 33, 40, 48])
+        if prof in ("num", "numf") and r.random() < 0.7:
+            long_ties = [x for pair in r.sample([(0, 0.0), (1, 1.0), (2, 2.0), (3, 3.0), (-1, -1.0)], r.choice([2, 3, 4])) for x in pair]
+        elif prof == "mixed" and r.random() < 0.5:
+            long_ties = [1, 1.0, [1], [1.0], 2.5]
     if kind == "dict":
         n = min(n, dict_len_cap(o))
         xs = gen_elems(r, prof, n, distinct=True)
     elif kind == "stream" and prof == "int" and r.random() < 0.4:
         a, step = r.randint(-2, 3), r.choice([1, 1, 2, 3])
         xs = [a + i * step for i in range(n)]
+    elif long_ties:
+        xs = [r.choice(long_ties) for _ in range(n)]
     else:
         xs = gen_elems(r, prof, n)
     ys = gen_elems(r, prof, r.choice([0, 1, 1, 2, 3, 4]))
